@@ -205,6 +205,8 @@ def random_history(rng, nmax, flaws=True):
         cs = list(range(nxt, nxt + k))
         nxt += k
         bare = (k == 1 and rng.random() < 0.5)
+        if not bare and k >= 1 and rng.random() < 0.3:
+            bare = rng.choice(["tuple", "array"])        # the children handed over as a tuple / an object ndarray
         if flaws and rng.random() < 0.04 and present:
             cs = cs + [rng.choice(present)]          # a particle that is already in the tree
             bare = False
@@ -260,12 +262,29 @@ def tree_impl(nroots, ops, vals=None):
           for i in range(nid)]
     ghost = pp.Particle("nu_e", (0, 0, 1), (0, 0, 1), 1e9, interaction_type="cc", interaction_model=pp.Interaction)
     ident = {id(p): i for i, p in enumerate(ps)}
-    ev = pp.Event(ps[0]) if nroots == 1 else pp.Event(ps[:nroots])
+    # roots as a single particle, a list or a tuple (by the parity of the history length); the caller's list must
+    # stay what it was
+    roots_arg = ps[0] if nroots == 1 and len(ops) % 2 == 0 else (tuple(ps[:nroots]) if len(ops) % 3 == 0 else list(ps[:nroots]))
+    ev = pp.Event(roots_arg)
     for k, (par, cs, bare) in enumerate(ops):
         try:
-            ev.add_children(ghost if par == 10 ** 6 else ps[par], ps[cs[0]] if bare else [ps[c] for c in cs])
+            kids = [ps[c] for c in cs]
+            if bare is True:
+                kids = ps[cs[0]]
+            elif bare == "tuple":
+                kids = tuple(kids)
+            elif bare == "array":
+                arr = np.empty(len(kids), dtype=object)
+                arr[:] = kids
+                kids = arr
+            handed = list(kids) if not isinstance(kids, pp.Particle) else None
+            ev.add_children(ghost if par == 10 ** 6 else ps[par], kids)
+            if handed is not None and [id(x) for x in kids] != [id(x) for x in handed]:
+                return "caller-list-modified %d" % k, ev, ps
         except ValueError:
             return "error %d" % k, ev, ps
+    if isinstance(roots_arg, (list, tuple)) and [id(x) for x in roots_arg] != [id(x) for x in ps[:nroots]]:
+        return "caller-roots-modified", ev, ps
     allp = list(ev)
     ids = lambda l: "-" if not l else ",".join(str(ident[id(p)]) for p in l)
     ch = " ".join(ids(ev.get_children(p)) for p in allp)
@@ -473,18 +492,44 @@ def check_energy_inputs(run, c):
     if ref is None:
         return
     for cls, val, tol in (("int", Ei, 1e-12), ("npint64", np.int64(Ei), 1e-12), ("zero_d", np.array(float(Ei)), 1e-12),
-                          ("float32", np.float32(Ei), 1e-5)):
+                          ("float32", np.float32(Ei), 3e-4)):
         want = ref
         if cls == "float32":          # the float32 value is a different energy: compare with its own float64 reading
             want, _, _ = run_impl(run, dict(c, E=float(np.float32(Ei)), inject=list(tape.us)))
         got, err2, _ = run_impl(run, dict(c, E=val, inject=list(tape.us)))
         ok = got is not None and want is not None and got["kind"] == want["kind"] and all(
-            fw.close(float(got[k]), float(want[k]), tol, 1e-300) for k in ("y", "em", "had", "sigma", "total", "L", "Ltot"))
+            fw.close(float(got[k]), float(want[k]), tol, (1e-6 if cls == "float32" and k in ("y", "em", "had") else 1e-300))
+            for k in ("y", "em", "had", "sigma", "total", "L", "Ltot"))
         if not ok:
             run.fail_input("energy-input", {"case": {k: c[k] for k in ("type", "flavor", "anti", "model", "kind")}, "E": Ei,
                                             "class": cls, "uniforms": list(tape.us)}, observed=got or err2, expected=want,
                            what="interaction of an energy given as %s differs from the float64 evaluation" % cls)
             return
+
+
+def check_interaction_history(run, calls, inject=None):
+    """a HISTORY of particle creations in one process (same energy with neutrino and antineutrino, CC and NC, both
+    models, repeated): every cross section / length must be the published value for ITS type, kind and model - nothing
+    may be remembered from earlier particles.  calls = [(type name, anti, model, kind, E)]"""
+    pp = P()
+    old = pp.GQRSInteraction.include_secondaries
+    try:
+        pp.GQRSInteraction.include_secondaries = False
+        for k, (tname, anti, model, kind, E) in enumerate(calls):
+            with Tape(run.rng, "nominal", None):
+                p = pp.Particle(tname, (0, 0, -1), (0, 0, 1), E, interaction_model=model_cls(model), interaction_type=kind)
+            I = p.interaction
+            got = [float(I.cross_section), float(I.total_cross_section), float(I.interaction_length), float(I.total_interaction_length)]
+            s_, t_ = ref_sigma(model, anti, kind, E), ref_total(model, anti, E)
+            want = [s_, t_, 1 / (6.02214076e23 * s_), 1 / (6.02214076e23 * t_)]
+            if not fw.all_close(got, want, 1e-9, 0.0):
+                run.fail_input("interaction-history", {"calls": [list(c) for c in calls[:k + 1]]},
+                               observed={"call": k, "sigma,total,L,Ltot": got}, expected=want,
+                               what="after earlier particles, cross sections / interaction lengths of this particle are not "
+                                    "the published values for its own type, interaction kind and model")
+                return
+    finally:
+        pp.GQRSInteraction.include_secondaries = old
 
 
 def check_grid(run, model, anti, Es):
@@ -520,8 +565,9 @@ def check_tree(run, nroots, ops, vals=None):
     """consistency of one well-formed history (distinct particle OBJECTS - their values may coincide -, known parents)"""
     impl, ev, ps = tree_impl(nroots, ops, vals)
     inp = {"nroots": nroots, "ops": [[p, cs, b] for p, cs, b in ops], "values": list(vals) if vals is not None else None}
-    if impl.startswith("error"):
-        run.fail_input("tree", inp, observed=impl, what="add_children raised on a well-formed history")
+    if impl.startswith("error") or impl.startswith("caller-"):
+        run.fail_input("tree", inp, observed=impl, what="add_children raised on a well-formed history / the list handed "
+                                                         "over by the caller was modified")
         return
     ident = {id(p): i for i, p in enumerate(ps)}
     expect_parent, level = {}, {i: 0 for i in range(nroots)}
@@ -582,6 +628,18 @@ def check_distribution(run, model, anti, E, n):
 
 def search(run, deep):
     rng = run.rng
+    # --- state kept across calls: histories first, so that their self-contained replays get the replay slots
+    for i in range(100 if deep else 12):
+        es = [10 ** rng.uniform(3, 12) for _ in range(2)]
+        calls = []
+        for k in range(rng.randint(4, 10)):
+            tname, fl, anti = rng.choice(TYPES)
+            calls.append((tname, anti, rng.choice(["gqrs", "ctw", "ctw"]), rng.choice(["cc", "nc"]), rng.choice(es)))
+        # the same energy, model and kind with the opposite sign right after the first call
+        t0 = calls[0]
+        calls[1] = (("nu_mu_bar", 1) if t0[1] == 0 else ("nu_mu", 0)) + (t0[2], t0[3], t0[4])
+        run.case(("oracle-interaction-history", str(calls)[:200]))
+        check_interaction_history(run, calls)
     n = 6000 if deep else 400
     for i in range(n):
         c = draw_case(run)
@@ -655,6 +713,8 @@ def replay(run, data):
             check_interaction(run, c)
         finally:
             me.Tape = orig
+    elif k == "interaction-history":
+        check_interaction_history(run, [tuple(c) for c in i["calls"]])
     elif k == "energy-input":
         cc = dict(i["case"], E=float(i["E"]), sec=False, mode="nominal", inject=[])
         check_energy_inputs(run, cc)
